@@ -787,3 +787,88 @@ pub fn exec_program(prog: &Program, ctx: &Ctx, disk: &SimDisk) -> Executed {
         dirty_after_finalize,
     }
 }
+
+/// The scene a rule-conforming program describes, computed without the writer (used to feed the
+/// foreign producer). Calls the model would reject are skipped.
+pub fn scene_of(prog: &Program) -> Expected {
+    let mut e = Expected::default();
+    e.file.guid = prog.guid.clone();
+    let mut registered: Vec<(String, String)> = Vec::new();
+    for call in &prog.calls {
+        match call {
+            Call::RegisterExt { ns, url } => {
+                if classify_register(ns, &registered) == Expect::MustAccept {
+                    registered.push((ns.clone(), url.clone()));
+                    e.file.extensions.push((ns.clone(), url.clone()));
+                }
+            }
+            Call::CoordMeta(v) => e.file.coord_meta = v.clone(),
+            Call::Creation(v) => e.file.creation = v.clone(),
+            Call::Blob { data, .. } => e.blobs.push(data.make()),
+            Call::Pc { guid, proto, steps, end } => {
+                if classify_proto(proto, &registered) != Expect::MustAccept || *end != SubEnd::Finalize {
+                    continue;
+                }
+                let (il, cl) = default_limits(proto);
+                let mut meta = PcMeta { intensity_limits: il, color_limits: cl, ..Default::default() };
+                let mut points = Vec::new();
+                for s in steps {
+                    match s {
+                        PcStep::Set(f) => apply_pc_field(&mut meta, f),
+                        PcStep::Point(p) => {
+                            if classify_point(p, proto) == Expect::MustAccept {
+                                points.push(p.clone());
+                            }
+                        }
+                        PcStep::Points { n, seed } => points.extend(gen_points(proto, *n, *seed)),
+                    }
+                }
+                if meta.intensity_limits.as_ref().map(|l| !l.complete()).unwrap_or(false) {
+                    meta.intensity_limits = None;
+                }
+                if meta.color_limits.as_ref().map(|l| !l.complete()).unwrap_or(false) {
+                    meta.color_limits = None;
+                }
+                e.file.pcs.push(PcRead { guid: Some(guid.clone()), proto: proto.clone(), records: points.len() as u64, meta, bounds: Bounds::default(), points: Ok(points) });
+            }
+            Call::Img { guid, steps, end } => {
+                if *end != SubEnd::Finalize {
+                    continue;
+                }
+                let mut meta = ImgMeta::default();
+                let mut visual = None;
+                let mut projection = None;
+                for s in steps {
+                    match s {
+                        ImgStep::Set(f) => apply_img_field(&mut meta, f),
+                        ImgStep::Rep(spec) => {
+                            if spec.kind != RepKind::Visual && projection.is_some() {
+                                continue;
+                            }
+                            let data = spec.data.make();
+                            let mask = spec.mask.as_ref().map(|m| m.make());
+                            let rr = RepRead {
+                                kind: spec.kind,
+                                format: spec.format,
+                                props: spec.props.clone(),
+                                data_len: data.len() as u64,
+                                data: Ok(data),
+                                mask_len: mask.as_ref().map(|m| m.len() as u64),
+                                mask: mask.map(Ok),
+                            };
+                            if spec.kind == RepKind::Visual {
+                                visual = Some(rr);
+                            } else {
+                                projection = Some(rr);
+                            }
+                        }
+                    }
+                }
+                if visual.is_some() || projection.is_some() {
+                    e.file.images.push(ImgRead { guid: Some(guid.clone()), meta, visual, projection });
+                }
+            }
+        }
+    }
+    e
+}
